@@ -370,7 +370,7 @@ def mon_c13(script, res):
                 open_reqs[req] = dict(kind=what, i=a, arg=b, st=cur[a], forked=False, running=False, kills=[], other=False)
             if what in ('startall', 'stopall', 'startgroup', 'stopgroup'):
                 open_all[req] = dict(kind=what[:-3] if what.endswith('all') else what[:-5], wait=(a if what.endswith('all') else b),
-                                     ran=set())
+                                     ran=set(), stopped=set())
         elif k == 'ansall':
             r = open_all.pop(e[1], None)
             idx = [x[0] for x in e[2]]
@@ -380,9 +380,9 @@ def mon_c13(script, res):
                 for (i, status) in e[2]:
                     if not (0 <= i < n) or status != 80:
                         continue
-                    if r['kind'] == 'stop' and cur[i] not in (0, 100, 200, 1000):
-                        return ('a stop request with wait=true answered SUCCESS for p%d while the process is in state %s: %r'
-                                % (i, cur[i], e[2]))
+                    if r['kind'] == 'stop' and cur[i] not in (0, 100, 200, 1000) and i not in r['stopped']:
+                        return ('a stop request with wait=true answered SUCCESS for p%d, which has not been in a stopped state '
+                                'since the request (state %s): %r' % (i, cur[i], e[2]))
                     if r['kind'] == 'start' and cur[i] != 20 and i not in r['ran']:
                         return ('a start request with wait=true answered SUCCESS for p%d, which has not been RUNNING (state %s): %r'
                                 % (i, cur[i], e[2]))
@@ -398,9 +398,11 @@ def mon_c13(script, res):
                 for r in open_reqs.values():
                     if r['i'] == e[1] and e[3] == 20:
                         r['running'] = True
-                if e[3] == 20:
-                    for r in open_all.values():
+                for r in open_all.values():
+                    if e[3] == 20:
                         r['ran'].add(e[1])
+                    if e[3] in (0, 100, 200, 1000):
+                        r['stopped'].add(e[1])
         elif k == 'kill':
             for r in open_reqs.values():
                 r['kills'].append(e)
@@ -421,9 +423,11 @@ def mon_c13(script, res):
                 else:
                     if r['forked'] and code not in (50, 40):
                         return 'startProcess(p%d) answered fault %s although it forked a child' % (r['i'], code)
-                    if code == 50 and r['forked'] and r['running']:
-                        return ('startProcess(p%d) answered SPAWN_ERROR although the child it forked stayed up and the '
-                                'process became RUNNING' % r['i'])
+                    if code == 50 and r['forked'] and cur[r['i']] == 20:
+                        # (a process that was RUNNING and failed again before the deferred answer was polled may
+                        # answer SPAWN_ERROR; one that IS RUNNING has no spawn error)
+                        return ('startProcess(p%d) answered SPAWN_ERROR while the process is RUNNING with the child this '
+                                'call forked' % r['i'])
                     if code == 60 and r['st'] not in (10, 20, 30):
                         return 'ALREADY_STARTED for p%d in state %s' % (r['i'], r['st'])
             elif r['kind'] == 'stop':
